@@ -196,6 +196,12 @@ def gen_grammar(rng, adversarial=0.3, max_nts=6, max_terms=5, allow_empty_termin
             g.nts.insert(rng.randint(0, len(g.nts)), dict(name=rng.choice(cands), kind='enum', attrs=(['#[derive(Debug)]'] if behaviour else []), variants=[]))
     if rng.random() < 0.04:
         lengthen_a_name(rng, g)
+    if g.nts and rng.random() < 0.05:
+        # the same declaration again under another name, right after the original (anything remembered from one item to the next)
+        k = rng.randrange(len(g.nts))
+        src = g.nts[k]
+        nm = _fresh_nt(g, src['name'][:1].upper() + 'Twin') if src['name'][:1].isalpha() else _fresh_nt(g, 'Twin')
+        g.nts.insert(k + 1, dict(name=nm, kind=src['kind'], attrs=list(src['attrs']), variants=list(src['variants'])))
     return g
 
 
@@ -282,6 +288,20 @@ def add_name_relations(rng, g, behaviour=False):
                 fs = ('named', [('a', ('T', t)), ('b', ('T', var))]) if rng.random() < 0.5 else ('tuple', [(True, ('T', var)), (True, ('T', t))])
                 g.nts.append(_mk('struct', nm, [(None, fs)], behaviour))
                 _hook(rng, g, ('N', nm), behaviour)
+    elif r < 0.75 and g.terminals:
+        # two terminals, one name a proper suffix or prefix of the other (`$TerminalIdent` / `$Ident`), the longer declared
+        # before or after the shorter, different payload types, both used
+        t, ty = rng.choice(g.terminals)
+        ext = rng.choice(['Terminal', 'Not', 'Raw', 'X', 'L'])
+        var = (ext + t) if rng.random() < 0.6 else (t + ext)
+        if var not in used and var not in RUST_RESERVED and t[:1].isupper():
+            other = [x for x in types if x != ty]
+            k = [i for i, (q, _) in enumerate(g.terminals) if q == t][0]
+            g.terminals.insert(k if rng.random() < 0.6 else k + 1, (var, rng.choice(other) if other else ty))
+            nm = _fresh_nt(g, 'Sfx')
+            fs = ('named', [('a', ('T', t)), ('b', ('T', var))]) if rng.random() < 0.5 else ('tuple', [(True, ('T', var)), (True, ('T', t))])
+            g.nts.append(_mk('struct', nm, [(None, fs)], behaviour))
+            _hook(rng, g, ('N', nm), behaviour)
     elif g.terminals and g.nts:
         # XN next to X N
         x_is_t = rng.random() < 0.6
@@ -358,7 +378,7 @@ def add_motifs(rng, g, behaviour=False):
     tn = [t for t, _ in g.terminals]
     for _ in range(rng.choice([1, 1, 2, 3])):
         m = rng.choice(['nullable_chain', 'nullable_chain', 'nullable_chain', 'unit_chain', 'opt_list', 'shared_prefix', 'shared_prefix', 'eps_alts',
-                        'prefix_loop', 'prefix_loop', 'late_merge', 'late_merge', 'wide_prefix', 'wide_prefix', 'dead_tail', 'unit_tail', 'concat_keys'])
+                        'prefix_loop', 'prefix_loop', 'late_merge', 'late_merge', 'wide_prefix', 'wide_prefix', 'dead_tail', 'unit_tail', 'concat_keys', 'twin_dots', 'twin_dots'])
         new = []
         if m == 'nullable_chain':
             k = rng.randint(2, 5)
@@ -481,6 +501,26 @@ def add_motifs(rng, g, behaviour=False):
                 new.append(_mk('enum', o, [('Absent', ('empty',)), ('Present', _wrap(rng, [('T', rng.choice(tn))]))], behaviour))
             new.append(_mk('enum', dead, [], behaviour))
             head = ('N', top)
+        elif m == 'twin_dots':
+            # X -> t R u | R ; R -> t v w ..: after `t` the state holds R -> t . v and (from X -> t . R u) R -> . t v — ONE rule
+            # at TWO dot positions, before two different terminals, with different lookaheads
+            while len(tn) < 4:
+                t = 'Tk%d' % len(tn)
+                g.terminals.append((t, 'u32'))
+                tn.append(t)
+            t, vv, ww, uu = rng.sample(tn, 4)
+            rr = _fresh_nt(g, 'Call')
+            g.nts.append(_mk('struct', rr, [], behaviour))
+            xx = _fresh_nt(g, 'Stmt')
+            del g.nts[-1]
+            body = [('T', t), ('T', vv)] + ([('T', ww)] if rng.random() < 0.7 else []) + ([('T', t)] if rng.random() < 0.3 else [])
+            alts = [('Lab', _wrap(rng, [('T', t), ('N', rr)] + ([('T', uu)] if rng.random() < 0.7 else []))), ('Plain', _wrap(rng, [('N', rr)]))]
+            if rng.random() < 0.5:
+                alts.reverse()
+            xn = _mk('enum', xx, alts, behaviour)
+            rn = _mk('struct', rr, [(None, _wrap(rng, body))], behaviour)
+            new += [xn, rn] if rng.random() < 0.5 else [rn, xn]
+            head = ('N', xx)
         elif m == 'unit_tail':
             # a production whose fields are all `_` (3..5 of them), placed after a used field of its parent
             while len(tn) < 3:
@@ -861,7 +901,7 @@ LEX_PIECES = ['\uff12', '\u00b2', '\u00bd', '\u0663', '\u2163', '\u00c9', '\u01c
 UNI_CLASS = ['\uff12', '\u00b2', '\u00bd', '\u0663', '\u2163', '\u3007', '\u00c9', '\u01c5', '\u00aa', '\u02b0', '\u03a9',
              '\u00df', '\u65e5', '\u24d0', '\u0301', '\u200d', '\uff3f', '\uff04', '\uff1a', '\uff21', '\uff41', '\u203f']
 # one representative of every kind of lexeme and of every kind of junk, for exhaustive pair / triple coverage
-LEX_CORE = UNI_CLASS + ['start', 'struct', 'enum', 'terminal', '_', 'Abc', 'abc', 'x1', '_x', '$Abc', '$start', '$_', '$', ':', '::', ':::', ',',
+LEX_CORE = UNI_CLASS + ['#[]', '#["("]', '#["]"]', 'start', 'struct', 'enum', 'terminal', '_', 'Abc', 'abc', 'x1', '_x', '$Abc', '$start', '$_', '$', ':', '::', ':::', ',',
             '(', ')', '{', '}', '<', '>', '#[a]', '#[a(b)]', '#[', '#', '\u00e9', '\u00a0', '\ufeff', '//', '/', '0', '9a', '"', '-', '.', ';', '=',
             '\u3000', '\r', 'Start', 'terminals']
 LEX_SEPS = ['', ' ', '\n', '//c\n', '\u00a0', '\t']
@@ -946,7 +986,10 @@ def inject_violations(rng, g, k=None):
                         'wrong_ns_t', 'clash_nt', 'clash_t', 'clash_tenum', 'clash_nt_t', 'variant_name',
                         'variant_seq', 'lower_nt', 'lower_t', 'lower_tenum', 'lower_variant', 'upper_field',
                         'undef_start', 'start_is_terminal', 'ref_tenum_as_nt', 'ref_tenum_as_t', 'start_is_tenum',
-                        'start_case', 'ref_case_nt', 'ref_case_t', 'variant_seq_x2', 'variant_name_x2', 'clash_x2'])
+                        'start_case', 'ref_case_nt', 'ref_case_t', 'variant_seq_x2', 'variant_name_x2', 'clash_x2',
+                        'sigil_twin', 'clash_nt_t_x2'])
+        if kinds and rng.random() < 0.35:
+            v = kinds[-1]        # the same kind of violation again, somewhere else: which one is reported depends on the text only
         kinds.append(v)
         nts = g.nts
         def _case_variant(n):
@@ -977,6 +1020,24 @@ def inject_violations(rng, g, k=None):
                 e = rng.choice(es)
                 for j, (vn, _) in enumerate(list(e['variants'])[:2]):
                     e['variants'].insert(rng.randint(0, len(e['variants'])), (vn, ('tuple', [(True, ('N', nts[0]['name']))] * (6 + j))))
+            continue
+        if v == 'sigil_twin':
+            # a variant next to a copy of itself in which ONE symbol changed namespace (`Lit(Num)` beside `Tok($Num)`): the two
+            # sequences are different (no clash); the copy's symbol is undefined unless the name exists on both sides
+            es = [n for n in nts if n['kind'] == 'enum' and any(fs_syms(f) for _, f in n['variants'])]
+            if es:
+                e = rng.choice(es)
+                vname, fs = rng.choice([(a, f) for a, f in e['variants'] if fs_syms(f)])
+                syms = list(fs_syms(fs))
+                i = rng.randrange(len(syms))
+                syms[i] = ('N' if syms[i][0] == 'T' else 'T', syms[i][1])
+                twin = ('tuple', [(True, q) for q in syms])
+                e['variants'].insert(rng.randint(0, len(e['variants'])), ((vname or 'V') + 'Twin', twin))
+            continue
+        if v == 'clash_nt_t_x2' and len(nts) >= 2:
+            # two different names, each declared on both sides (which clash is reported depends on the text only)
+            for n in rng.sample(nts, 2):
+                g.terminals.insert(rng.randint(0, len(g.terminals)), (n['name'], '()'))
             continue
         if v == 'clash_x2' and len(nts) >= 2:
             for n in rng.sample(nts, 2):
@@ -1410,6 +1471,30 @@ def far_prefix(rng):
         lines.append('// ' + fill * k)
         n -= k
     return '\n'.join(lines) + '\n'
+
+
+def relate_adjacent_attrs(rng, g, p=0.35):
+    """Consecutive declarations whose attribute lists are related: equal, one a proper prefix of the other (either order),
+    the same attributes in another order, or differing in the last one only."""
+    prev = None
+    for nt in g.nts:
+        if prev is not None and prev['attrs'] and rng.random() < p:
+            a = list(prev['attrs'])
+            r = rng.random()
+            if r < 0.3:
+                nt['attrs'] = a + [rng.choice(['#[derive(PartialEq, Eq)]', '#[allow(unused)]', a[0]])]
+            elif r < 0.55 and len(a) >= 2:
+                nt['attrs'] = a[:rng.randint(1, len(a) - 1)]
+            elif r < 0.7:
+                nt['attrs'] = a
+            elif r < 0.85:
+                nt['attrs'] = list(reversed(a))
+            else:
+                nt['attrs'] = a[:-1] + ['#[allow(dead_code)]']
+        prev = nt
+    if g.nts and g.nts[-1]['attrs'] and rng.random() < p:
+        a = list(g.nts[-1]['attrs'])
+        g.tenum_attrs = a + ['#[derive(PartialEq, Eq)]'] if rng.random() < 0.5 else a[:max(1, len(a) - 1)]
 
 
 def relate_adjacent_types(rng, g, p=0.4):
